@@ -8,7 +8,8 @@ PLANS = {
         profiles=[('core', 2), ('core_smi', 1), ('hier', 2), ('hier_sparse', 2)], curated=[], configs=ALLCFG,
         cp=dict(max_ops=25, kinds=['P']), examples=(300, 3000), floor=(200, 2000),
         rule='Hypothesis-generated event histories with per-step guard valuations on generated machines (core/hier profiles: '
-             '1-3 regions, depth<=3, conflicting rows, state- and machine-internal tables); oracle: per (machine,region) ordered '
+             '1-3 regions, depth<=3, conflicting rows, state- and machine-internal tables incl. 2-3 conflicting machine-level rows; '
+             'hier_sparse: depth 3 where each level mentions only 2-3 of 6 event types); oracle: per (machine,region) ordered '
              'guard evaluations and actions equal the reference model. Non-trivial = a step in which one region consulted >= 2 '
              'candidate rows or candidates existed at >= 2 nesting levels; distinct by (spec, configuration before, event, '
              'guard/action token sequence).',
@@ -72,8 +73,9 @@ PLANS = {
         profiles=[('completion', 3), ('completion_defer', 2), ('completion_sub', 2)], curated=[], configs=ALLCFG,
         cp=dict(max_ops=30, kinds=['P', 'P', 'P', 'P', 'Q', 'Q', 'X', 'T'], no_restart_with_deferral=True), examples=(400, 3000), floor=(100, 1000),
         rule='Generated histories (process_event, enqueue_event, execute queued all/single, stop/start) on machines with completion '
-             'rows (chains, conflicts, guards frozen per entry of the source); oracle: per (machine,region) completion behaviours == '
-             'model, order of completion work relative to other occurrences == model, no no_transition for completion events, and '
+             'rows (chains, conflicts, guards frozen per entry of the source; also with root-level deferral and inside multi-region '
+             'submachines that are initial states); oracle: per (machine,region) completion firings with the guard consultations '
+             'that belong to them == model (how often a frozen guard is asked without firing is not compared), order of completion work relative to other occurrences == model, no no_transition for completion events, and '
              '(model-free) no active simple state has an enabled completion row at a quiescent point. Non-trivial = a completion '
              'firing with another occurrence pending, a chain >= 2, or conflicting completion rows.',
         assumptions=['completion guards are frozen from the entry of their source state (property quantifier)'],
@@ -117,8 +119,11 @@ PLANS = {
         directed=[('seqwrap', ['S:0 P:0:1:0 RP:1:%d:0 P:2:2:0 N' % n for n in list(range(250, 262)) + list(range(65528, 65541))])],
         cp=dict(max_ops=30, kinds=['P', 'P', 'P', 'P', 'Q', 'X', 'N'], scripts={'p': ['r', 'Q']}),
         examples=(200, 2000), floor=(60, 600),
-        rule='Generated histories on machines whose root-level states defer 1-2 event types (inside the documented back/back11 '
-             'domain: no row on a deferred event in the deferring state), mixing deferred types with state changes, enqueue_event, '
+        rule='Generated histories on machines whose states defer 1-2 event types through each of the three mechanisms: a deferred_events '
+             'list, an unguarded row with the Defer action, and (backmp11) is_event_deferred predicates whose verdict is read from '
+             'the trace; root level inside the documented back/back11 domain (no row on a deferred event in the deferring state or '
+             'a sibling region), any nesting level and several regions for backmp11, incl. outer rows on an action-deferred type; '
+             'mixing deferred types with state changes, enqueue_event, '
              'execute-queued and submissions from behaviours; unique payload ids. Model-free invariants: an occurrence of a type '
              'deferred by an entered state is neither dispatched nor reported through no_transition; at every quiescent point no '
              'occurrence is pending unless an entered state defers its type; same-type deferred occurrences re-offered in arrival '
